@@ -44,6 +44,10 @@ func genC07(t *rapid.T) *c07Case {
 	profiles := []gen.Profile{gen.PInt, gen.PFloat, gen.PLowStr, gen.PHighStr, gen.PMixNumStr, gen.PBool, gen.PWidth6Str}
 	ds := gen.GenDataset(t, gen.DatasetOpts{MinEvents: 2, MaxEvents: pt.Scale(14, 40), MaxCols: 4, Profiles: profiles, NullPct: 5})
 	n := len(ds.Events)
+	for _, e := range ds.Events {
+		// a queryable copy of the id (field names starting with "_" are not parsed as fields by SPL)
+		e.Doc.Obj = append(e.Doc.Obj, model.Field{Name: "vk", Node: model.LeafNode(model.Int(e.Vid))})
+	}
 	cs := &c07Case{DS: ds, Card: rapid.SampledFrom([]int{0, 0, 2}).Draw(t, "card"), Sample: pt.Scale(40, 0), Pick: int64(rapid.IntRange(1, 1<<30).Draw(t, "pick"))}
 	cs.PreQ = rapid.IntRange(0, 3).Draw(t, "preQ") == 0
 	pos := 0
@@ -82,6 +86,7 @@ func genC07(t *rapid.T) *c07Case {
 
 type runState struct {
 	ingested [2][]*model.Event // per index, in ingest order
+	groups   [2][][2]int       // per index: [from,to) ranges of ingested[] covered by each completed flush
 	flushed  [2]int            // number of events per index covered by a completed flush
 	inflight bool              // the op that died was a flush/rotate
 	diedAt   int               // index of the op during which the worker died (-1 = completed)
@@ -103,15 +108,19 @@ func execute(c *sut.Client, cs *c07Case, lo, hi uint64) (*runState, error) {
 				}
 				st.ingested[op.Index] = append(st.ingested[op.Index], evs...)
 			}
-		case "flush":
-			err = c.Flush()
-			if err == nil {
-				st.flushed[0], st.flushed[1] = len(st.ingested[0]), len(st.ingested[1])
+		case "flush", "rotate":
+			if op.Kind == "flush" {
+				err = c.Flush()
+			} else {
+				err = c.Rotate()
 			}
-		case "rotate":
-			err = c.Rotate()
 			if err == nil {
-				st.flushed[0], st.flushed[1] = len(st.ingested[0]), len(st.ingested[1])
+				for ix := 0; ix < 2; ix++ {
+					if len(st.ingested[ix]) > st.flushed[ix] {
+						st.groups[ix] = append(st.groups[ix], [2]int{st.flushed[ix], len(st.ingested[ix])})
+					}
+					st.flushed[ix] = len(st.ingested[ix])
+				}
 			}
 		case "query":
 			_, err = c.Search(sut.Query{Index: indexNames[0], Text: "*", Start: lo - 1, End: hi + 10, Size: 1000})
@@ -149,7 +158,7 @@ func checkC07(cs *c07Case, o *pt.Obs) error {
 			}
 		}
 		if cs.PreQ {
-			_, _ = c.Search(sut.Query{Index: indexNames[0], Text: "_vid>2", Start: lo - 1, End: hi + 10, Size: 100})
+			_, _ = c.Search(sut.Query{Index: indexNames[0], Text: "vk>2", Start: lo - 1, End: hi + 10, Size: 100})
 		}
 		rec := int64(0)
 		if record {
@@ -349,6 +358,37 @@ func crashAndRecover(cs *c07Case, k int, name string, lo, hi uint64, info map[st
 			for _, e := range ext {
 				if seen[e.Vid] == 0 {
 					return fmt.Errorf("%s: event ingested and flushed after the restart is not searchable", stage)
+				}
+			}
+			// every acknowledged flush must also be reachable through a time range that covers only it
+			// and through a filter on one of its events (segment-level metadata must describe it)
+			for gi, g := range st.groups[ix] {
+				grp := ing[g[0]:g[1]]
+				glo, ghi := lq.TsBounds(grp)
+				sr2, err := b.Search(sut.Query{Index: indexNames[ix], Text: "*", Start: glo, End: ghi, Size: len(cs.DS.Events) + 10})
+				if err != nil {
+					return lq.Classify(b, stage+": time-range query after restart", err)
+				}
+				if sr2.Err != "" || len(sr2.Errors) > 0 {
+					return fmt.Errorf("%s: index %s: query over the time range of acknowledged flush %d answered with error: %s %v", stage, indexNames[ix], gi, sr2.Err, sr2.Errors)
+				}
+				got2, _, err := lq.Vids("*", sr2.Records)
+				if err != nil {
+					return fmt.Errorf("%s: index %s: %v", stage, indexNames[ix], err)
+				}
+				for _, e := range grp {
+					if !got2[e.Vid] {
+						return fmt.Errorf("%s: index %s: event _vid=%d of acknowledged flush %d is not returned by a search over exactly that flush's time range [%d,%d] (returned %d records)",
+							stage, indexNames[ix], e.Vid, gi, glo, ghi, len(sr2.Records))
+					}
+				}
+				probe := grp[len(grp)-1]
+				sr3, err := b.Search(sut.Query{Index: indexNames[ix], Text: fmt.Sprintf("vk=%d", probe.Vid), Start: lo - 1, End: hi + 10, Size: 10})
+				if err != nil {
+					return lq.Classify(b, stage+": filter query after restart", err)
+				}
+				if sr3.Err != "" || len(sr3.Errors) > 0 || len(sr3.Records) != 1 {
+					return fmt.Errorf("%s: index %s: filter vk=%d (event of acknowledged flush %d) returned %d records, err=%q %v", stage, indexNames[ix], probe.Vid, gi, len(sr3.Records), sr3.Err, sr3.Errors)
 				}
 			}
 			if nPend != 0 && nPend != len(pending) && inSfmWindow(name) && pt.KnownFindingOpen("C07-block-visible-before-sfm") {
